@@ -84,6 +84,11 @@ Definition truncate {A} (keep : nat) (l : list A) : list A := skipn (List.length
 (* ---- fmt verbs ---- *)
 Definition is_verb (v : string) (c : string) : bool := String.eqb v ("%" ++ c).
 
+(* a Go byte from the integer that stands for it *)
+Definition byte_of_Z (z : Z) : option byte := if (z <? 0)%Z then None else Byte.of_N (Z.to_N z).
+(* a function value: the name of the (lifted) body it runs *)
+Definition vfunc (name : string) : val := VObj "func" [(name, VNil)].
+
 (* the variable that holds the bound on the rounds of a while loop (SWhile) *)
 Definition loop_fuel_var : string := "$fuel".
 
@@ -207,6 +212,12 @@ Section Run.
         | VInt p, VInt q => Ok (VInt (Z.shiftl p q))
         | _, _ => Fail "<< on unsupported values"
         end
+      else if String.eqb op ">>" then
+        (* on integers that stand for unsigned values (bytes); a negative count panics *)
+        match x, y with
+        | VInt p, VInt q => if (q <? 0)%Z then Fail "panic" else Ok (VInt (Z.shiftr p q))
+        | _, _ => Fail ">> on unsupported values"
+        end
       else if String.eqb op "&" then
         match x, y with
         | VEnum t p, VEnum _ q | VEnum t p, VInt q | VInt p, VEnum t q => Ok (VEnum t (Z.land p q))
@@ -275,6 +286,11 @@ Section Run.
         else if String.eqb fn "make" then
           match vs with
           | [VInt n] | [VInt n; _] => Ok (VList (repeat VNil (Z.to_nat n)))
+          | [VStr t; VInt n] =>
+            (* make([]byte, n), the type argument as written: n zero bytes *)
+            if bytes_eqb t (bytes_of_string "[]byte")
+            then if (n <? 0)%Z then Fail "panic" else Ok (VStr (repeat x00 (Z.to_nat n)))
+            else Fail "make"
           | _ => Fail "make"
           end
         else if String.eqb fn "append" then
@@ -403,6 +419,17 @@ Section Run.
       | _ => Fail "call of a computed function"
       end
     | EOther s => Fail ("untranslated expression " ++ s)
+    | EFunc name => Ok (vfunc name)
+    | ECallVal f args =>
+      (* a call of a function value: the body it names, through [call] like any other call *)
+      fv <- eval en f ;;
+      let fix evals (l : list gexpr) : res (list val) :=
+        match l with [] => Ok [] | a :: r => v <- eval en a ;; vs <- evals r ;; Ok (v :: vs) end in
+      vs <- evals args ;;
+      match fv with
+      | VObj "func" [(name, VNil)] => match vs with [v] => call "" name v | _ => call "" name (VTuple vs) end
+      | _ => Fail "call of a non-function"
+      end
     end.
 
   (* bind the names of a := or = ; a tuple on the right is destructured *)
@@ -524,6 +551,19 @@ Section Run.
         (* a local slice *)
         let l' := (firstn (Z.to_nat z) l ++ v :: skipn (S (Z.to_nat z)) l)%list in
         match update x (VList l') en with Some en' => Ok (en', buf, Run) | None => Fail "index assignment" end
+      | Some (VStr l), VInt z =>
+        (* a local []byte: Go panics unless 0 <= z < len; the stored value is a byte *)
+        if ((z <? 0) || (Z.of_nat (List.length l) <=? z))%Z then Fail "panic"
+        else match v with
+             | VInt c =>
+               match byte_of_Z c with
+               | Some b =>
+                 let l' := (firstn (Z.to_nat z) l ++ b :: skipn (S (Z.to_nat z)) l)%list in
+                 match update x (VStr l') en with Some en' => Ok (en', buf, Run) | None => Fail "index assignment" end
+               | None => Fail "store of a non-byte"
+               end
+             | _ => Fail "store of a non-byte"
+             end
       | Some (VObj ty fs), VInt z =>
         match lookup f fs with
         | Some (VList l) =>
@@ -625,6 +665,7 @@ Section Run.
         Ok (truncate (List.length en) en1, buf1, stop)
       | _ => Fail "no loop fuel"
       end
+    | SBlock body => scoped body en buf
     | SFor k v coll body =>
       c <- eval (Z.of_nat (List.length buf)) en coll ;;
       let items := match c with
@@ -699,5 +740,74 @@ Fixpoint call_table (tbl : list printer) (implements : string -> string -> bool)
     match find_in tbl ty m with
     | Some p => run_body implements (call_table tbl implements globals f) globals p recv
     | None => Fail ("no body " ++ ty ++ "." ++ m)
+    end
+  end.
+
+(* ---- the library functions the bodies of internal/enc call (strings, strconv) and the conversions between
+   strings, byte slices, bytes and runes: calls that leave the translated code reach [call] under these names ---- *)
+(* strings.IndexByte(s, c): the index of the first c in s, or -1 *)
+Fixpoint index_byte (s : bytes) (c : Z) : Z :=
+  match s with
+  | [] => (-1)%Z
+  | b :: r => if (Z.of_N (bN b) =? c)%Z then 0%Z else let k := index_byte r c in if (k <? 0)%Z then (-1)%Z else (k + 1)%Z
+  end.
+(* two adjacent bytes of s *)
+Fixpoint has_pair (x y : Z) (s : bytes) : bool :=
+  match s with
+  | a :: ((b :: _) as r) => ((Z.of_N (bN a) =? x) && (Z.of_N (bN b) =? y))%Z || has_pair x y r
+  | _ => false
+  end.
+(* strings.ContainsRune(s, r), for the runes UTF-8 writes in one byte (below 128: the byte itself) or in two
+   (below 2048: 110xxxxx 10xxxxxx); other runes are outside this model *)
+Definition contains_rune (s : bytes) (r : Z) : option bool :=
+  if ((0 <=? r) && (r <? 128))%Z then Some (0 <=? index_byte s r)%Z
+  else if ((128 <=? r) && (r <? 2048))%Z then Some (has_pair (192 + Z.shiftr r 6) (128 + Z.land r 63) s)
+  else None.
+Definition has_suffix (a suf : bytes) : bool := bytes_eqb (skipn (List.length a - List.length suf) a) suf.
+Definition go_library (m : string) (v : val) : option (res val) :=
+  if String.eqb m "strings.IndexByte" then
+    Some (match v with VTuple [VStr s; VInt c] => Ok (VInt (index_byte s c)) | _ => Fail "strings.IndexByte" end)
+  else if String.eqb m "strings.ContainsRune" then
+    Some (match v with
+          | VTuple [VStr s; VInt r] => match contains_rune s r with Some b => Ok (VBool b) | None => Fail "strings.ContainsRune of a rune above 2047" end
+          | _ => Fail "strings.ContainsRune"
+          end)
+  else if String.eqb m "strings.HasSuffix" then
+    Some (match v with VTuple [VStr a; VStr suf] => Ok (VBool (has_suffix a suf)) | _ => Fail "strings.HasSuffix" end)
+  else if String.eqb m "strconv.ParseUint" then
+    (* base 10, 64 bits: the value and a nil error, or (0 on a syntax error, the largest value on a range error) and an error *)
+    Some (match v with
+          | VTuple [VStr s; VInt 10; VInt 64] =>
+            match parse_dec_N s with
+            | Some n => if (n <? 2 ^ 64)%N then Ok (VTuple [VInt (Z.of_N n); VNil])
+                        else Ok (VTuple [VInt (2 ^ 64 - 1); VObj "error" []])
+            | None => Ok (VTuple [VInt 0; VObj "error" []])
+            end
+          | _ => Fail "strconv.ParseUint"
+          end)
+  else if String.eqb m "strconv.FormatInt" then
+    Some (match v with VTuple [VInt z; VInt 10] => Ok (VStr (print_Z z)) | _ => Fail "strconv.FormatInt" end)
+  else if String.eqb m "string" || String.eqb m "[]byte" then
+    (* strings and byte slices are both byte lists; the conversions copy *)
+    Some (match v with VStr b => Ok (VStr b) | _ => Fail "conversion" end)
+  else if String.eqb m "byte" then
+    (* the conversion to byte, also written by the translator around arithmetic at type byte: modulo 256 *)
+    Some (match v with VInt z => Ok (VInt (z mod 256)) | _ => Fail "conversion" end)
+  else if String.eqb m "rune" then
+    Some (match v with VInt z => if ((- 2 ^ 31 <=? z) && (z <? 2 ^ 31))%Z then Ok (VInt z) else Fail "conversion" | _ => Fail "conversion" end)
+  else None.
+
+(* the knot over a table of translated bodies, with the library underneath *)
+Fixpoint call_table_lib (tbl : list printer) (implements : string -> string -> bool) (globals : env) (fuel : nat) (ty m : string) (recv : val) : res val :=
+  match fuel with
+  | O => Fail "out of fuel"
+  | S f =>
+    match find_in tbl ty m with
+    | Some p => run_body implements (call_table_lib tbl implements globals f) globals p recv
+    | None =>
+      match (if String.eqb ty "" then go_library m recv else None) with
+      | Some r => r
+      | None => Fail ("no body " ++ ty ++ "." ++ m)
+      end
     end
   end.
